@@ -63,6 +63,11 @@ def gen_call(rng, depth, in_body, names, flags):
         name = "nosuch"
     nm = rng.choice(["", " ", "\n"]) + name + rng.choice(["", " "])
     args = [txt(nm)]
+    if flags.get("pfs", True) and flags.get("computed_names", True) and rng.random() < 0.07:
+        # the name itself is the result of a call (expanded in the caller's frame before the template is looked up)
+        inner = T([txt("#if:" + rng.choice(["x", ""])), txt(name), txt(name)]) if rng.random() < 0.7 else \
+            T([txt("#switch:a"), txt("a=" + name)])
+        args = [txt(rng.choice(["", " "])) + [inner] + txt(rng.choice(["", " "]))]
     used = set()
     for _ in range(rng.randint(0, 3)):
         if rng.random() < 0.55:
